@@ -22,6 +22,7 @@
         tie_sharp_512       ... and for tpb = 512 the statement really fails; the real code lost events (docs/FLOAT.md):
                             this is why the code was changed
      3'. due'_float_exact   REPAIRED test: float decision = exact decision for EVERY tpb, 2 U <= 10^8, 6 * 10^8 * E <= 1
+     3''. le0'_float_exact  the mirrored repaired test round(a - current_time, 8) <= 0 (note-offs, scheduled actions)
      4. any_while_agree ... generic: a float test that decides like the exact one runs like the model
         float_due'_is_exact_due, while_agree', run_agree_src', consumed_agree'   (repaired test, grid_setting + budget)
         float_due_is_exact_due, while_agree, run_agree_src, consumed_agree       (refuted test, needs tpb mod 512 <> 0)
@@ -531,6 +532,99 @@ Proof.
     change (bpow radix2 (-27)) with (/ 134217728) in B. lra.
 Qed.
 
+(** * 3''. The mirrored test of the repaired code: round(a - current_time, 8) <= 0 *)
+
+(* Track.process_note_offs: round(note_off.timestamp - self.current_time, 8) <= 0;
+   Timeline.tick (scheduled actions): round(action.time - self.current_time, 8) <= 0 *)
+Definition float_le0' (a t : R) : bool := Rle_bool (py_round8 (RN (a - t))) 0.
+
+Lemma units8_nonpos z : (units8 z <= 0)%Z <-> z * 10 ^ 8 <= / 2.
+Proof.
+  unfold units8. set (y := z * 10 ^ 8).
+  pose proof (Znearest_half (fun n => negb (Z.even n)) y) as H. apply Rabs_le_inv in H.
+  split.
+  - intros P. apply IZR_le in P. lra.
+  - intros P. destruct (Req_dec y (/ 2)) as [->|N].
+    + (* the tie 1/2 goes to the even neighbour 0 *)
+      unfold Znearest.
+      assert (F : Zfloor (/ 2) = 0%Z) by (apply Zfloor_imp; simpl; lra).
+      rewrite F. rewrite Rcompare_Eq by (simpl; lra). simpl. lia.
+    + apply le_IZR. assert (IZR (ZnearestE y) < 1) by lra.
+      apply lt_IZR in H0. apply IZR_le. lia.
+Qed.
+
+Lemma py_round8_nonpos z : py_round8 z <= 0 <-> (units8 z <= 0)%Z.
+Proof.
+  unfold py_round8. rewrite e8_val. split.
+  - intros H. destruct (Z_le_gt_dec (units8 z) 0) as [P|P]. exact P. exfalso.
+    assert (1 <= IZR (units8 z)) by (apply IZR_le; lia).
+    assert (L : bpow radix2 (-27) <= RN (IZR (units8 z) / 100000000)).
+    { unfold RN. apply round_ge_generic; [exact fexp64_valid | apply valid_rnd_N | apply generic_format_bpow; unfold fexp64, FLT_exp; lia |].
+      change (bpow radix2 (-27)) with (/ 134217728). lra. }
+    pose proof (bpow_gt_0 radix2 (-27)). lra.
+  - intros P. apply IZR_le in P. unfold RN. apply round_le_generic; [exact fexp64_valid | apply valid_rnd_N | apply generic_format_0 |].
+    assert (0 <= - IZR (units8 z) * / 100000000) by (apply Rmult_le_pos; lra). unfold Rdiv. lra.
+Qed.
+
+(* a within E of the grid point b / U, t within E of the tick time k / tpb: the float test is the exact one, every tpb *)
+Theorem le0'_float_exact (U tpb tau k b : Z) (t a E : R) :
+  (0 < tpb)%Z -> (0 < tau)%Z -> U = (tau * tpb)%Z -> (2 * U <= 10 ^ 8)%Z ->
+  6 * 10 ^ 8 * E <= 1 ->
+  Rabs (t - IZR k / IZR tpb) <= E -> Rabs (a - IZR b / IZR U) <= E ->
+  (py_round8 (RN (a - t)) <= 0 <-> (b <= k * tau)%Z).
+Proof.
+  intros Htpb Htau HU HU2 HE Ht Ha.
+  assert (U0 : (0 < U)%Z) by nia.
+  assert (KT : IZR k / IZR tpb = IZR (k * tau) / IZR U).
+  { subst U. rewrite !mult_IZR. field. split; apply not_0_IZR; lia. }
+  rewrite KT in Ht. rewrite e8_val in HE.
+  apply IZR_lt in U0. apply IZR_le in HU2. rewrite mult_IZR in HU2. change (IZR (10 ^ 8)) with 100000000 in HU2.
+  unfold Rdiv in *. set (iu := / IZR U) in *.
+  assert (IU : IZR U * iu = 1) by (unfold iu; field; lra).
+  assert (IU0 : 0 < iu) by (unfold iu; apply Rinv_0_lt_compat; lra).
+  assert (IU2 : 2 <= 100000000 * iu) by nra.
+  apply Rabs_le_inv in Ht. apply Rabs_le_inv in Ha.
+  rewrite py_round8_nonpos, units8_nonpos. rewrite e8_val.
+  destruct (Z_le_gt_dec b (k * tau)) as [L|G].
+  - split; [intros _; exact L | intros _].
+    assert (D : IZR b * iu <= IZR (k * tau) * iu).
+    { apply Rmult_le_compat_r. lra. apply IZR_le. exact L. }
+    assert (B : RN (a - t) <= bpow radix2 (-28)).
+    { unfold RN. apply round_le_generic; [exact fexp64_valid | apply valid_rnd_N | apply generic_format_bpow; unfold fexp64, FLT_exp; lia |].
+      change (bpow radix2 (-28)) with (/ 268435456). lra. }
+    change (bpow radix2 (-28)) with (/ 268435456) in B. lra.
+  - split; [|intros C; lia]. intros C. exfalso.
+    assert (D : (IZR (k * tau) + 1) * (100000000 * iu) <= IZR b * (100000000 * iu)).
+    { apply Rmult_le_compat_r. lra. rewrite <- plus_IZR. apply IZR_le. lia. }
+    assert (B : bpow radix2 (-27) <= RN (a - t)).
+    { unfold RN. apply round_ge_generic; [exact fexp64_valid | apply valid_rnd_N | apply generic_format_bpow; unfold fexp64, FLT_exp; lia |].
+      change (bpow radix2 (-27)) with (/ 134217728). lra. }
+    change (bpow radix2 (-27)) with (/ 134217728) in B. lra.
+Qed.
+
+(* both repaired tests as booleans, against the model's comparison *)
+Corollary float_due'_bool (U tpb tau k a : Z) (t x E : R) :
+  (0 < tpb)%Z -> (0 < tau)%Z -> U = (tau * tpb)%Z -> (2 * U <= 10 ^ 8)%Z -> 6 * 10 ^ 8 * E <= 1 ->
+  Rabs (t - IZR k / IZR tpb) <= E -> Rabs (x - IZR a / IZR U) <= E ->
+  float_due' t x = (a <=? k * tau)%Z.
+Proof.
+  intros H1 H2 H3 H4 H5 H6 H7. pose proof (due'_float_exact U tpb tau k a t x E H1 H2 H3 H4 H5 H6 H7) as D.
+  unfold float_due'. destruct (Z.leb_spec a (k * tau)) as [L|L].
+  - apply Rle_bool_true. apply D. exact L.
+  - apply Rle_bool_false. apply Rnot_le_lt. intros C. apply D in C. lia.
+Qed.
+
+Corollary float_le0'_bool (U tpb tau k b : Z) (t a E : R) :
+  (0 < tpb)%Z -> (0 < tau)%Z -> U = (tau * tpb)%Z -> (2 * U <= 10 ^ 8)%Z -> 6 * 10 ^ 8 * E <= 1 ->
+  Rabs (t - IZR k / IZR tpb) <= E -> Rabs (a - IZR b / IZR U) <= E ->
+  float_le0' a t = (b <=? k * tau)%Z.
+Proof.
+  intros H1 H2 H3 H4 H5 H6 H7. pose proof (le0'_float_exact U tpb tau k b t a E H1 H2 H3 H4 H5 H6 H7) as D.
+  unfold float_le0'. destruct (Z.leb_spec b (k * tau)) as [L|L].
+  - apply Rle_bool_true. apply D. exact L.
+  - apply Rle_bool_false. apply Rnot_le_lt. intros C. apply D in C. lia.
+Qed.
+
 (** * 4. The project's corollaries: the loop of Track.tick *)
 
 (* the refuted test: round(self.current_time, 8) >= round(self.next_event_time, 8) *)
@@ -952,11 +1046,12 @@ Print Assumptions due_float_exact.
 Print Assumptions tie_needs_512.
 Print Assumptions tie_sharp_512.
 Print Assumptions due'_float_exact.
+Print Assumptions le0'_float_exact.
 Print Assumptions run'_float_exact.
 Print Assumptions while'_float_exact.
 Print Assumptions run_float_exact_refuted_test.
 Print Assumptions due'_2560.
-(* Output of the ten Print Assumptions above (Coq 8.16.1, Flocq 4.1.0):
+(* Output of the eleven Print Assumptions above (Coq 8.16.1, Flocq 4.1.0):
      tie_needs_512:  Closed under the global context
      all the others: exactly the four statements the standard library's classical real numbers rest on -
        ClassicalDedekindReals.sig_not_dec : forall P : Prop, {~ ~ P} + {~ P}
